@@ -12,7 +12,7 @@ from ..driver import derive_seed
 
 ID = "C01"
 LEVEL = "exploration"
-BUDGET = {"quick": {"wall": 140, "task_timeout": 900}, "thorough": {"wall": 2400, "task_timeout": 3000}}
+BUDGET = {"quick": {"wall": 240, "task_timeout": 900}, "thorough": {"wall": 7200, "task_timeout": 3000}}
 RUNS = {"quick": 48, "thorough": 160}           # independent runs per variant
 Z_LIMIT = 7.0          # |difference| / standard error, frozen (see DESIGN.md section 9)
 EPS_REF = 2.5e-3       # resolution of the tabulated references / grid integration
@@ -25,11 +25,18 @@ RULE = ("for every algorithmic variant R independent seeded runs (random initial
         "(independent runs, no autocorrelation model needed); oracle: |mean CDF - reference CDF| <= 7 * sqrt(SE^2 + "
         "eps^2) against (1) the shipped reference tables, (2) harness-computed exact references (grid integration "
         "of exp(-beta U) over the minimum-image cube, r dr for the hard-disk dipole bond, excluded volume for hard "
-        "disks), (3) all variants of one model against each other; samples inside a hard core are violations "
+        "disks), (3) all variants of one model against each other (five-atom systems with several event handlers "
+        "per tagger only this way; the cell-veto water variants only this way and over one common time window with a "
+        "variant of the same process in law, because two water molecules need several thousand time units to "
+        "equilibrate; the two cheap water variants against the table after a burn-in of 5000 time units); samples "
+        "inside a hard core are violations "
         "outright; a variant is non-trivial if it contributed >= 2000 samples after burn-in")
 ASSUMPTIONS = ["statistical: effect sizes below about 7 standard errors (reported per variant) are invisible",
                "thresholds frozen: z-limit 7 on means over >= 48 independent runs, eps 2.5e-3",
-               "harness pair systems use potentials negligible at half the box length and short chains"]
+               "harness pair systems use potentials negligible at half the box length and short chains",
+               "burn-in: 30 samples (the two-particle systems in boxes of length 1 relax within a few samples); two "
+               "water molecules in a box of length 10: 1866 samples = 5000 time units (measured relaxation about 1000 "
+               "time units), cell-veto water variants are not compared with the table at all"]
 REAL_CODE = common.REAL_CODE + "; SeparationOutputHandler, BondLengthAndAngleOutputHandler, " \
                                "OxygenOxygenSeparationOutputHandler, PolarizationOutputHandler and the files they write"
 STUBBED = common.STUBBED
@@ -47,6 +54,17 @@ VARIANTS = {
                            "group": "atoms", "obs": {"": "ref:" + P + "coulomb_atoms/ReferenceDataCoulombAtoms.dat"}},
     "atoms_cell_veto": {"base": P + "coulomb_atoms/cell_veto.ini", "time": {"quick": 0, "thorough": 90},
                         "group": "atoms", "obs": {"": "ref:" + P + "coulomb_atoms/ReferenceDataCoulombAtoms.dat"}},
+    # five atoms: no tabulated reference, the variants are compared with each other only (several event handlers per
+    # tagger, several candidates of one tagger scheduled at once)
+    "atoms5_power": {"base": P + "coulomb_atoms/power_bounded.ini", "time": {"quick": 100, "thorough": 600},
+                     "group": "atoms5", "roots": 5, "cross_only": True,
+                     "obs": {"": "ref:" + P + "coulomb_atoms/ReferenceDataCoulombAtoms.dat"}},
+    "atoms5_cell_bounded": {"base": P + "coulomb_atoms/cell_bounded.ini", "time": {"quick": 100, "thorough": 500},
+                            "group": "atoms5", "roots": 5, "cross_only": True,
+                            "obs": {"": "ref:" + P + "coulomb_atoms/ReferenceDataCoulombAtoms.dat"}},
+    "atoms5_cell_veto": {"base": P + "coulomb_atoms/cell_veto.ini", "time": {"quick": 0, "thorough": 60},
+                         "group": "atoms5", "roots": 5, "cross_only": True,
+                         "obs": {"": "ref:" + P + "coulomb_atoms/ReferenceDataCoulombAtoms.dat"}},
     "dip_atom_factors": {"base": P + "dipoles/atom_factors.ini", "time": {"quick": 150, "thorough": 900},
                          "group": "dipoles"},
     "dip_inside_first": {"base": P + "dipoles/dipole_factors_inside_first.ini",
@@ -67,17 +85,31 @@ VARIANTS = {
                      "group": "water_one",
                      "obs": {"_Length": "ref:" + P + "water/ReferenceLengthSingleMolecule.dat",
                              "_Angle": "ref:" + P + "water/ReferenceAngleSingleMolecule.dat"}},
+    # two water molecules in a box of length 10: from the random initial configuration the pair needs several thousand
+    # time units to reach the stationary distribution (measured: the CDF at the 0.75 level of the reference rises from
+    # 0.1 to its plateau over about 3000 time units), so the comparison with the tabulated reference is made on
+    # long runs after a burn-in of 5000 time units (sampling interval 2.6789), for the two variants that are cheap
+    # enough; the cell-veto variants are compared over the same (transient) time window with the cell-bounded variant,
+    # which realises the same process in law (same factors, same lifting), and not with the table
     "water_pb_lj_inverted": {"base": P + "water/coulomb_power_bounded_lj_inverted.ini",
-                             "time": {"quick": 0, "thorough": 1200}, "group": "water",
+                             "time": {"quick": 0, "thorough": 9000}, "group": "water",
+                             "runs": {"quick": 0, "thorough": 48}, "burn_in": 1866,
                              "obs": {"": "ref:" + P + "water/ReferenceOOSeparation.dat"}},
     "water_pb_lj_cell_bounded": {"base": P + "water/coulomb_power_bounded_lj_cell_bounded.ini",
-                                 "time": {"quick": 0, "thorough": 600}, "group": "water",
+                                 "time": {"quick": 0, "thorough": 9000}, "group": "water",
+                                 "runs": {"quick": 0, "thorough": 48}, "burn_in": 1866,
                                  "obs": {"": "ref:" + P + "water/ReferenceOOSeparation.dat"}},
+    "water_pb_lj_cell_bounded_transient": {"base": P + "water/coulomb_power_bounded_lj_cell_bounded.ini",
+                                           "time": {"quick": 0, "thorough": 60}, "group": "water_transient",
+                                           "cross_only": True, "burn_in": 0,
+                                           "obs": {"": "ref:" + P + "water/ReferenceOOSeparation.dat"}},
     "water_cv_lj_inverted": {"base": P + "water/coulomb_cell_veto_lj_inverted.ini",
-                             "time": {"quick": 0, "thorough": 120}, "group": "water",
+                             "time": {"quick": 0, "thorough": 60}, "group": "water_transient",
+                             "cross_only": True, "burn_in": 0,
                              "obs": {"": "ref:" + P + "water/ReferenceOOSeparation.dat"}},
     "water_cv_lj_cell_veto": {"base": P + "water/coulomb_cell_veto_lj_cell_veto.ini",
-                              "time": {"quick": 0, "thorough": 60}, "group": "water",
+                              "time": {"quick": 0, "thorough": 60}, "group": "water_transient",
+                              "cross_only": True, "burn_in": 0,
                               "obs": {"": "ref:" + P + "water/ReferenceOOSeparation.dat"}},
     "hard_disk_dipole": {"base": "hard_disk_dipoles/single_hard_disk_dipole.ini",
                          "time": {"quick": 1500, "thorough": 9000}, "group": "hdd", "obs": {"": "exact:bond"}},
@@ -114,7 +146,7 @@ def plan(tier, master_seed):
     for name, variant in VARIANTS.items():
         if not variant["time"][tier]:
             continue
-        for run in range(RUNS[tier]):
+        for run in range(variant.get("runs", RUNS)[tier]):
             tasks.append({"engine": "stat", "variant": name, "run": run, "index": index, "tier": tier,
                           "seed": derive_seed(master_seed, ID + name, run)})
             index += 1
@@ -125,10 +157,14 @@ def plan(tier, master_seed):
     return tasks
 
 
-def scenario_for(task):
+def scenario_for(task, package_dir=None):
     variant = VARIANTS[task["variant"]]
     scn = {"base": variant["base"], "set": json.loads(json.dumps(variant.get("set", {}))), "seed": task["seed"],
            "end_time": float(variant["time"][task["tier"]]), "max_events": 10 ** 9}
+    if variant.get("roots") and package_dir is not None:
+        from .. import gen
+        sections = scenario_module.base_sections(package_dir, variant["base"])
+        gen.scale_units(sections, package_dir, variant["roots"], scn["set"])
     return scn
 
 
@@ -155,7 +191,7 @@ def execute(task, package_dir):
     if task.get("engine") == "stat-replay":
         return execute_replay(task, package_dir)
     variant = VARIANTS[task["variant"]]
-    scn = scenario_for(task)
+    scn = scenario_for(task, package_dir)
     result = runsim.run_scenario(scn, [], package_dir, keep_dir=True)
     out_dir = getattr(result, "out_dir", None)
     summary = {"status": result.status, "events": result.events, "draws": result.draws,
@@ -180,7 +216,7 @@ def execute(task, package_dir):
             else:
                 values = [row[0] for row in rows]
             per_sample = max(1, len(values) // max(1, result.writes))
-            values = values[BURN_IN * per_sample:]
+            values = values[variant.get("burn_in", BURN_IN) * per_sample:]
             grid = reference_grid(package_dir, reference, scn, sections)
             values.sort()
             n = len(values)
@@ -370,6 +406,10 @@ def analyse(summaries):
         report["%s%s" % (variant, suffix)] = {"runs": st["runs"], "samples": st["samples"], "max_z": round(worst, 2),
                                               "at_level": LEVELS[worst_at] if worst_at is not None else None,
                                               "typical_se": round(sorted(st["se"])[len(st["se"]) // 2], 5)}
+        if VARIANTS[variant].get("cross_only"):
+            # the table only supplies the abscissae here
+            report["%s%s" % (variant, suffix)]["compared_with"] = "other variants only"
+            continue
         if worst > Z_LIMIT:
             violations.append(({"property": ID, "oracle": "distribution_differs_from_reference", "step": 0,
                                 "detail": {"variant": variant, "observable": suffix, "z": worst,
